@@ -371,6 +371,7 @@ def analyse_copy(body, src_param, size_param, is_avail, is_cursor, classify_call
     seen_problem = set()
     SRC, SIZE = Lin.sym(src_param), Lin.sym(size_param)
     fresh = [0]
+    tagn = [0]
 
     def opaque(l):
         return any("@" in s_ for s_ in l.symbols())
@@ -557,8 +558,10 @@ def analyse_copy(body, src_param, size_param, is_avail, is_cursor, classify_call
             return "stop" if r in ("end", "continue") else ("end" if r == "break" else r)
         # ---- arbitrary iteration: havoc what the loop writes, assume the invariants
         written = set(ir.written_locals(lp)) | {av_key, mp_key}
-        fresh[0] += 1
-        tag = "~%d" % fresh[0]
+        # (loop tags are numbered per run: the same path has to produce the same symbols when it is re-run under a refined
+        # assumption, or the assumption recorded for `avail~3 - ..` never matches the `avail~5 - ..` of the next attempt)
+        tagn[0] += 1
+        tag = "~%d" % tagn[0]
         for key in sorted(written):
             st.env[key] = Lin.sym(key + tag)
         Gh = Lin.sym("G" + tag)
@@ -613,6 +616,7 @@ def analyse_copy(body, src_param, size_param, is_avail, is_cursor, classify_call
         st = St()
         st.asm = asm
         st.choices = choices
+        tagn[0] = 0
         try:
             r = run(ir.stmts(body), st)
             if r == "end":
